@@ -136,7 +136,7 @@ def store_script(seed, ntraces, nops, driver, workdir, unit=None):
         for _ in range(nops):
             g.random_op()
         ops += g.ops
-    return {"driver": driver, "dir": workdir + "/badger-" + str(seed), "seed": seed, "ops": ops}
+    return {"driver": driver, "dir": workdir + "/badger-" + str(seed), "seed": seed, "ops": ops, "lookalike": True}
 
 
 def nonce_script(seed, ntraces, nops, driver, workdir):
@@ -170,7 +170,7 @@ def nonce_script(seed, ntraces, nops, driver, workdir):
                 ident = rnd.choice(idents)
                 g.nonce([ident], wallet=ident.startswith("a"))
         ops += g.ops
-    return {"driver": driver, "dir": workdir + "/badger-nonce-" + str(seed), "seed": seed, "ops": ops}
+    return {"driver": driver, "dir": workdir + "/badger-nonce-" + str(seed), "seed": seed, "ops": ops, "lookalike": True}
 
 
 def peers_script(seed, ntraces, nops, driver, workdir):
@@ -194,4 +194,4 @@ def peers_script(seed, ntraces, nops, driver, workdir):
             else:
                 g.ops.append({"op": "NodePeers", "id": g.node()})
         ops += g.ops
-    return {"driver": driver, "dir": workdir + "/badger-peers-" + str(seed), "seed": seed, "ops": ops}
+    return {"driver": driver, "dir": workdir + "/badger-peers-" + str(seed), "seed": seed, "ops": ops, "lookalike": True}
